@@ -158,21 +158,21 @@ var suites13 = map[uint16]suite13{
 }
 
 type suite12 struct {
-	kind     int
-	mac      int // MAC key length
-	key      int
-	iv       int
-	des3     bool
-	macH     func() hash.Hash
+	kind      int
+	mac       int // MAC key length
+	key       int
+	iv        int
+	des3      bool
+	macH      func() hash.Hash
 	prfSHA384 bool
 }
 
 var (
-	cbcSHA1    = func(key int) suite12 { return suite12{kind: kCBC, mac: 20, key: key, iv: 16, macH: sha1.New} }
-	gcm128     = suite12{kind: kGCM12, key: 16, iv: 4}
-	gcm256     = suite12{kind: kGCM12, key: 32, iv: 4, prfSHA384: true}
-	chacha12   = suite12{kind: kChaCha12, key: 32, iv: 12}
-	suites12   = map[uint16]suite12{
+	cbcSHA1  = func(key int) suite12 { return suite12{kind: kCBC, mac: 20, key: key, iv: 16, macH: sha1.New} }
+	gcm128   = suite12{kind: kGCM12, key: 16, iv: 4}
+	gcm256   = suite12{kind: kGCM12, key: 32, iv: 4, prfSHA384: true}
+	chacha12 = suite12{kind: kChaCha12, key: 32, iv: 12}
+	suites12 = map[uint16]suite12{
 		0x0005: {kind: kRC4, mac: 20, key: 16, macH: sha1.New},
 		0xc011: {kind: kRC4, mac: 20, key: 16, macH: sha1.New},
 		0xc007: {kind: kRC4, mac: 20, key: 16, macH: sha1.New},
